@@ -149,11 +149,15 @@ class Schedules(Space):
         sigs = np.array([S.word_signal(w) for w in WORDS[:n]])
         if c['entry'] == 'group':
             sigs = np.array([S.sensitive_signal(i) for i in range(n)])      # rows whose table depends on the filter length
+            # channels in very different physical units (e.g. MEG in tesla next to EEG in microvolts): exact power-of-two scales
+            sigs = sigs * np.array([1., 2.0 ** -40, 2.0 ** 30, 2.0 ** -45, 2.0 ** -10])[:n, None]
             opts = {'center_extrema': 'trough', 'threshold_kwargs': dict(S.T0)}
             ref = reference(sigs, opts, flag)
             opts_call = None
         else:
             opts = row_options(kind, n, flag)
+            if kind == 'none':
+                sigs = sigs * np.array([2.0 ** -40, 1., 2.0 ** -45, 2.0 ** 30, 2.0 ** -10])[:n, None]
             ref = reference(sigs, opts, flag)
             opts_call = opts if kind == 'alias' else copy.deepcopy(opts)
         sgn = {'entry': c['entry'], 'executor': c['executor'], 'options': kind}
